@@ -78,29 +78,46 @@ def gen_append(r, F, R, X):
     kind = r.random()
     rp = gen.tree_paths(R)
     fp = gen.tree_paths(F)
-    if kind < 0.35:
+    if kind < 0.3:
         return {"src": "R", "target": [], "mode": mode, "tree": True, "emdpath": None}
-    if kind < 0.6:
+    if kind < 0.55:
         return {"src": "R", "target": list(r.choice(rp)), "mode": mode, "tree": r.choice([True, False, None]), "emdpath": None}
     if kind < 0.85:
         tgt = list(r.choice(rp))
-        # emdpath: the node itself, its parent, an ancestor, or a random file node
+        # emdpath: the node itself, its parent, an ancestor, a node DOWNSTREAM of it in the file, a random file node, or a
+        # path that is not in the file at all
         c = r.random()
-        if c < 0.35:
+        if c < 0.3:
             ep = tgt
-        elif c < 0.65:
+        elif c < 0.5:
             ep = tgt[:-1]
-        elif c < 0.8:
+        elif c < 0.6:
             ep = tgt[:r.randrange(0, len(tgt) + 1)]
-        else:
+        elif c < 0.8:
+            below = [list(p) for p in fp if len(p) > len(tgt) and list(p[:len(tgt)]) == tgt]
+            ep = r.choice(below) if below else tgt
+        elif c < 0.93:
             ep = list(r.choice(fp))
+        else:
+            ep = list(r.choice(fp)) + ["no such node"] + (["deeper"] if r.random() < 0.5 else [])
         eps = "/".join(["R0"] + ep)
         if r.random() < 0.2:
             eps = "/" + eps
         return {"src": "R", "target": tgt, "mode": mode, "tree": r.choice([True, False, None]), "emdpath": eps}
-    # foreign tree (root name not in the file) under an emdpath of the file
+    # foreign tree (root name not in the file) under an emdpath of the file: a node of the file, with or without a leading
+    # slash, a path that is not in the file, one that is one node beyond it, or an unknown root
     xp = gen.tree_paths(X)
-    ep = "/".join(["R0"] + list(r.choice(fp)))
+    c = r.random()
+    if c < 0.75:
+        ep = "/".join(["R0"] + list(r.choice(fp)))
+    elif c < 0.85:
+        ep = "/".join(["R0"] + list(r.choice(fp)) + ["no such node"])
+    elif c < 0.93:
+        ep = "/".join(["R0"] + list(r.choice(fp)) + ["no such node", "deeper"])
+    else:
+        ep = "/".join(["nosuchroot"] + list(r.choice(fp)))
+    if r.random() < 0.25:
+        ep = "/" + ep
     return {"src": "X", "target": list(r.choice(xp)), "mode": mode, "tree": r.choice([True, False, None]), "emdpath": ep}
 
 
